@@ -685,10 +685,18 @@ func ruleC13_3(c *Ctx, r *Rep) {
 	r.Check("C13.3", "C13.3:watermark-lookup@"+fnCreateSnap, oldest.Pos, ok, "watermark = published_at of the oldest outstanding delivery of the subscription", "the watermark lookup is not `oldest {completed_at IS NULL, expires_at > now} delivery of this subscription by published_at`: "+c.predsString(oldest.Where))
 	// SetAckedMessagesBefore on the complex path = that row's published_at
 	okB := false
-	var wm ssa.Value
+	wm := map[string]bool{}
 	for _, mu := range cr.Mut("acked_messages_before", "set") {
-		if dependsOnCall(mu.Arg, oldest.Terms[0].Call) && sources(mu.Arg)["field:PublishedAt"] {
-			okB, wm = true, mu.Arg
+		cands := []ssa.Value{mu.Arg}
+		if phi, isPhi := mu.Arg.(*ssa.Phi); isPhi {
+			// one setter fed by a local that is `now` by default and the row's published_at on the complex path
+			cands = phi.Edges
+		}
+		for _, a := range cands {
+			if dependsOnCall(a, oldest.Terms[0].Call) && sources(a)["field:PublishedAt"] {
+				okB = true
+				wm[valKey(a)] = true
+			}
 		}
 	}
 	r.Check("C13.3", "C13.3:watermark-stored@"+fnCreateSnap, cr.Pos, okB, "", "the stored watermark is not the oldest outstanding delivery's published_at")
@@ -701,7 +709,7 @@ func ruleC13_3(c *Ctx, r *Rep) {
 	}
 	tp := ids.Find("", "topic_id", "eq")
 	pg := ids.Find("", "published_at", "gte")
-	okIDs := len(tp) == 1 && len(pg) == 1 && wm != nil && valKey(pg[0].Arg) == valKey(wm) && sources(tp[0].Arg)["field:TopicID"]
+	okIDs := len(tp) == 1 && len(pg) == 1 && wm[valKey(pg[0].Arg)] && sources(tp[0].Arg)["field:TopicID"]
 	sc := ids.Find(al, "subscription_id", "eq")
 	okSub := al != "" && len(sc) == 1 && dependsOnSubscriptionLookup(c, ids, sc[0].Arg)
 	okDone := false
@@ -770,7 +778,29 @@ func ruleC14_1(c *Ctx, r *Rep) {
 }
 
 // Unconditional2 for mutations: no control condition at all.
-func (s *Stmt) Unconditional2(m *Mut) bool { return len(m.Conds) == 0 }
+func (s *Stmt) Unconditional2(m *Mut) bool { return len(s.condsBeyondRoot(m.Conds)) == 0 }
+
+// condsBeyondRoot: the conditions in cs that do not already govern the creation of the statement itself (a guard
+// that dominates the whole statement is a condition of the operation, not of one of its clauses).
+func (s *Stmt) condsBeyondRoot(cs []Cond) []Cond {
+	var root []Cond
+	if in, ok := s.RootCall.(ssa.Instruction); ok && in.Block() != nil {
+		root = edgeConds(in.Block())
+	}
+	var out []Cond
+	for _, c := range cs {
+		found := false
+		for _, x := range root {
+			if x.V == c.V && x.Pol == c.Pol {
+				found = true
+			}
+		}
+		if !found {
+			out = append(out, c)
+		}
+	}
+	return out
+}
 
 // addOfParamAndField: v is (time.Time).Add(<param name>, conv(<x>.<field>)) with no negation.
 func addOfParamAndField(v ssa.Value, param, field string) bool {
@@ -988,8 +1018,7 @@ func ruleC15_1(c *Ctx, r *Rep) {
 			walk = func(ps []*Pred) {
 				for _, p := range ps {
 					if p.Kind == "atom" && (p.Col == "completed_at" || p.Col == "deleted_at" || p.Col == "published_at") && (p.Op == "lte" || p.Op == "lt") && p.Arg != nil {
-						src := sources(p.Arg)
-						if src["call:Now"] && src["field:MinAge"] && nowMinusAge(p.Arg) {
+						if nowMinusAge(c, p.Arg, 0) {
 							ok = true
 						}
 					}
@@ -1003,9 +1032,25 @@ func ruleC15_1(c *Ctx, r *Rep) {
 }
 
 // nowMinusAge: time.Now().Add(-MinAge)
-func nowMinusAge(v ssa.Value) bool {
+func nowMinusAge(c *Ctx, v ssa.Value, depth int) bool {
 	call, ok := resolve(v).(*ssa.Call)
-	if !ok || call.Call.StaticCallee() == nil || call.Call.StaticCallee().Name() != "Add" {
+	if !ok || call.Call.StaticCallee() == nil {
+		return false
+	}
+	if cal := call.Call.StaticCallee(); cal.Name() != "Add" || fnPkgPath(cal) != "time" {
+		// a module helper that computes the cutoff: every one of its returns must be now − MinAge, computed there
+		if depth < 2 && c.inModule(cal) && len(cal.Blocks) > 0 {
+			rets := returnsOf(cal)
+			if len(rets) == 0 {
+				return false
+			}
+			for _, ret := range rets {
+				if len(ret.Results) != 1 || !nowMinusAge(c, retResult(ret, 0), depth+1) {
+					return false
+				}
+			}
+			return true
+		}
 		return false
 	}
 	recv, ok := resolve(call.Call.Args[0]).(*ssa.Call)
